@@ -1,6 +1,9 @@
 package main
 
 import (
+	jobSource "github.com/mimiro-io/datahub/internal/jobs/source"
+	"sync"
+	"context"
 	"fmt"
 	"strconv"
 	"time"
@@ -252,4 +255,97 @@ func genC17Overlap(c *Ctx) {
 func init() {
 	register("c17overlap", genC17Overlap)
 	registerKind("c17.overlap", runC17Overlap)
+}
+
+// ---------------------------------------------------------------------------------------------
+// c17.rerun: the real job.Run with a reRun handler (maxRetries m, delay d) and real timers. The job is triggered at
+// scripted offsets (well apart from each other and from the retry instants); `fail` says whether every run fails
+// (sink rejects everything) or every run succeeds. After everything has settled the number of runs is observed:
+// a failing job runs once per trigger plus at most m re-runs IN TOTAL; a succeeding job is never re-run.
+// in {"m","delayMs","triggers":[ms offsets],"fail":bool}   out {"runs":n}
+
+func runC17Rerun(c *Ctx, in M) (out interface{}) {
+	defer func() {
+		if r := recover(); r != nil {
+			out = M{"panic": fmt.Sprint(r)}
+		}
+	}()
+	if c17Hub == nil {
+		c17Hub = NewHub(c, true)
+	}
+	c17JobN++
+	jobID := fmt.Sprintf("c17r-%d-%d", c.Seed, c17JobN)
+	fail := getb(in, "fail")
+	delay := time.Duration(geti(in, "delayMs")) * time.Millisecond
+	var mu sync.Mutex
+	runs := 0
+	sink := &jobs.VerifSink{}
+	sink.Fail = func(call int, es []*server.Entity) error {
+		mu.Lock()
+		runs++
+		mu.Unlock()
+		if fail {
+			return fmt.Errorf("sink rejects everything")
+		}
+		return nil
+	}
+	// every run reads the one entity again (the token is not stored when the sink fails; for succeeding runs a fresh
+	// source is used per trigger below so that each run has something to deliver)
+	vj, err := jobs.NewVerifJob(c17Hub.Runner, jobID, &restartingSource{}, nil, sink, 10, false, false, 0, true, geti(in, "m"), delay, false)
+	if err != nil {
+		return M{"err": err.Error()}
+	}
+	start := time.Now()
+	last := 0
+	for _, t := range getl(in, "triggers") {
+		off := int(t.(float64))
+		if off > last {
+			last = off
+		}
+		d := time.Duration(off)*time.Millisecond - time.Since(start)
+		if d > 0 {
+			time.Sleep(d)
+		}
+		vj.Run()
+	}
+	// settle: every possible re-run chain has ended
+	time.Sleep(time.Duration(last)*time.Millisecond - time.Since(start) + time.Duration(geti(in, "m")+2)*delay + 300*time.Millisecond)
+	mu.Lock()
+	defer mu.Unlock()
+	return M{"runs": runs}
+}
+
+// restartingSource hands out one entity on every run (it ignores the token).
+type restartingSource struct{}
+
+func (s *restartingSource) GetConfig() map[string]interface{} {
+	return map[string]interface{}{"Type": "VerifRestartingSource"}
+}
+func (s *restartingSource) StartFullSync() {}
+func (s *restartingSource) EndFullSync()   {}
+func (s *restartingSource) ReadEntities(ctx context.Context, since jobSource.DatasetContinuation, batchSize int,
+	processEntities func([]*server.Entity, jobSource.DatasetContinuation) error) error {
+	return processEntities([]*server.Entity{server.NewEntity("1", 1)}, &jobSource.StringDatasetContinuation{Token: ""})
+}
+
+func genC17Rerun(c *Ctx) {
+	cases := 6
+	if c.Thorough {
+		cases = 40
+	}
+	for i := 0; i < cases; i++ {
+		m := c.Rng.Intn(4)
+		// triggers 150 ms apart, retry delay 400 ms: a second failing run always falls inside the delay of the first
+		nt := 1 + c.Rng.Intn(3)
+		trig := []int{}
+		for k := 0; k < nt; k++ {
+			trig = append(trig, k*150)
+		}
+		c.Do("c17.rerun", M{"m": m, "delayMs": 400, "triggers": trig, "fail": c.Rng.Intn(4) != 0})
+	}
+}
+
+func init() {
+	register("c17rerun", genC17Rerun)
+	registerKind("c17.rerun", runC17Rerun)
 }
